@@ -32,6 +32,27 @@ def defined_in_files(p, ns, x, path):
     return True
 
 
+def tree_at(tree, path):
+    cur = tree
+    for k in path:
+        if not (isinstance(cur, dict) and "o" in cur):
+            return None
+        cur = next((v for kk, v in cur["o"] if kk.strip() == k), None)
+    return cur
+
+
+def literal_text(node):
+    """the text a literal value denotes: integers in full, floats the way Rust's `Display` prints them (no exponent, no trailing `.0`)"""
+    if isinstance(node, bool):
+        return "true" if node else "false"
+    if isinstance(node, dict) and ("u" in node or "i" in node):
+        return str(node.get("u", node.get("i")))
+    if isinstance(node, dict) and "f" in node:
+        from fractions import Fraction
+        return frac_str(Fraction(node["f"]))
+    return None
+
+
 def oracle(ctx, p, o, i):
     """every accessible string key x every locale: the value the generated accessor renders for that locale (the arm of
     `match locale` given by DefaultedLocales::compute, read in the locale's final values) denotes the source text written
@@ -56,6 +77,22 @@ def oracle(ctx, p, o, i):
                     continue
                 eff = walk(inherits, default, lambda x: defined_in_files(p, ns, x, path), l)
                 rec = p["meta"].get((ns, eff, tuple(path)))
+                if rec is not None and rec.get("kind") == "lit" and rec.get("presence") == "defined":
+                    # a number / boolean written as the whole value: rendered as written (u64 and i64 in full, floats as Rust prints them)
+                    node = tree_at(p["files"][(ns, eff)], path)
+                    exp = literal_text(node)
+                    if exp is None:
+                        continue
+                    rendered_from = arms.get(l, l)
+                    v = locale_value_at(ns_out, rendered_from, path)
+                    got = pv_eval(env, v) if v is not None and v["t"] != "default" else None
+                    ctx.count("literal_value")
+                    if got != exp:
+                        report_violation(ctx, "render:literal-differs-from-source", {
+                            "case": project_text(p), "namespace": ns, "locale": l, "effective_locale_by_spec": eff, "key_path": list(path),
+                            "source": proj.emit_json(node), "expected_by_spec": exp, "implementation": got,
+                            "harness": "parser_h pipeline + denotation of the dumped value"})
+                    continue
                 if rec is None or rec.get("kind") != "string" or rec.get("presence") != "defined" or "src" not in rec:
                     continue
                 rendered_from = arms.get(l, l)
